@@ -125,6 +125,10 @@ def run_subruns(ctx, n_sub):
     for j in range(1, n_sub + 1):
         out = os.path.join(WORK, 'sub_%s_%d_%d.json' % (ctx.pid, os.getpid(), j))
         env = dict(os.environ, VERIF_SUBRUN=out, VERIF_SEED=str(ctx.seed * 1000 + j), VERIF_TIER='thorough')
+        # seven processes in parallel: without a cap every one of them starts one BLAS / OpenMP thread per core and they starve each
+        # other (C10 thorough: 70 minutes instead of 2); two threads each keeps the machine busy without oversubscribing it
+        for var in ('OMP_NUM_THREADS', 'OPENBLAS_NUM_THREADS', 'MKL_NUM_THREADS'):
+            env.setdefault(var, '2')
         procs.append((j, out, subprocess.Popen([os.path.join(VERIF, 'check'), ctx.pid, '--tier', 'thorough'], env=env,
                                                stdout=subprocess.PIPE, stderr=subprocess.STDOUT, text=True)))
     merged = 0
